@@ -78,20 +78,20 @@ func (s *scriptSC) Save(c *patcher.Checkpoint) (patcher.AfterSaveAction, error) 
 // session runs one patcher "process": brand-new source, patcher and bowl over the given disk
 // state. overlay selects the in-place bowl. It returns the Resume error (nil, ErrStop or other).
 type session struct {
-	Patch     []byte
-	OldDir    string // pristine old build (fresh: target pool dir)
-	OutDir    string // fresh: output dir; overlay: directory holding the old build
-	StageDir  string // overlay only
-	Overlay   bool
-	Slice     *Slicer
-	SC        *scriptSC
-	Ck        []byte // serialized checkpoint to resume from (nil: from the start)
-	Whitelist map[int64]bool
+	Patch        []byte
+	OldDir       string // pristine old build (fresh: target pool dir)
+	OutDir       string // fresh: output dir; overlay: directory holding the old build
+	StageDir     string // overlay only
+	Overlay      bool
+	Slice        *Slicer
+	SC           *scriptSC
+	Ck           []byte // serialized checkpoint to resume from (nil: from the start)
+	Whitelist    map[int64]bool
 	OnSourceRead func(n int) // called before the n-th read of the patch source
-	b         bowl.Bowl
-	ResumeErr error
-	Panic     string
-	Stage     string
+	b            bowl.Bowl
+	ResumeErr    error
+	Panic        string
+	Stage        string
 }
 
 func (se *session) run() {
